@@ -312,6 +312,14 @@ def _run_listed_repeated(chk, build, ev, sp, mcv, res):
         unit, pre, post = [e], [], []
     elif mcv in ("OU[", "OF["):
         unit, pre, post = [e, (mcv[:2] + "]", b"", False)], [], []
+    elif mcv == "OM=":
+        unit, pre, post = [e], [], []            # the same value set again and again
+    elif mcv in ("OM[", "OM]"):
+        # the same value pushed several times in a row (a recursive function), then popped
+        push = ("OM[", e[1], False)
+        pop = ("OM]", e[1], False)
+        k = rng.choice([2, 3, 20])
+        unit, pre, post = [push] * k + [pop] * k, [], []
     elif op == "push":
         unit, pre, post = [e] + epi, pro, []
     elif op == "ign":
